@@ -62,6 +62,11 @@ def AutoOK (env : Env) (w : World) : Prop :=
 theorem append_backend (h : Hasher) (d : List (BitVec 8)) : (h.append d).backend = h.backend := by
   cases h <;> rfl
 
+theorem foldl_append_backend (ws : List (List (BitVec 8))) : ∀ h : Hasher, (ws.foldl Hasher.append h).backend = h.backend := by
+  induction ws with
+  | nil => intro h; rfl
+  | cons c cs ih => intro h; simp only [List.foldl_cons]; rw [ih, append_backend]
+
 theorem new_backend (b : Backend) (k : V4) (h : Hasher) (e : Hasher.new b k = some h) : h.backend = b := by
   cases b <;> simp [Hasher.new] at e <;> subst e <;> rfl
 theorem default_backend (b : Backend) (h : Hasher) (e : Hasher.default b = some h) : h.backend = b := by
@@ -184,6 +189,17 @@ theorem step_autoOK (env : Env) (w : World) (op : Op) (hw : AutoOK env w) : Auto
     · rw [World.get_del] at hx; split at hx <;> [simp at hx; exact hw i x hx ha]
   case debug h => split at hx <;> exact hw i x hx ha
   case hash => split at hx <;> exact hw i x hx ha
+  case hashOne => split at hx <;> exact hw i x hx ha
+  case writes h ws =>
+    split at hx
+    · exact hw i x hx ha
+    · rename_i y hy
+      rw [World.get_put] at hx
+      split at hx
+      · simp only [Option.some.injEq] at hx; subst hx
+        simp only [foldl_append_backend]
+        exact hw _ y hy ha
+      · exact hw i x hx ha
 
 theorem run_autoOK (env : Env) (ops : List Op) : ∀ w, AutoOK env w → AutoOK env (run env w ops).1 := by
   induction ops with
